@@ -124,8 +124,17 @@ func (o *Oracle) CallPositions(src engine.Value, S, T types.Type, path []PElem, 
 				continue
 			}
 			if fs != nil && fs.Via != "" {
-				*out = append(*out, CallPos{Fn: fs.Via, Src: src, HasSrc: true, Path: fp})
-				if call := o.viaCall(fs.Via, src); call != nil && !call.Failed {
+				recv := src
+				if fs.Path != nil {
+					// the getter belongs to a struct below the source (autoMap)
+					v, _, nilOn, ok := o.walkPath(src, S, fs.Path, false, tf.Name())
+					if !ok || nilOn {
+						continue
+					}
+					recv = v
+				}
+				*out = append(*out, CallPos{Fn: fs.Via, Src: recv, HasSrc: true, Path: fp})
+				if call := o.viaCall(fs.Via, recv); call != nil && !call.Failed {
 					if fs.Fn != "" {
 						*out = append(*out, CallPos{Fn: fs.Fn, Src: call.Result, HasSrc: true, Path: fp})
 					} else {
